@@ -163,7 +163,7 @@ fn compare_borrowed(text: &[u8]) -> Result<(), Fail> {
 const NUM_NEARMISS: &[&str] = &[
     "127", "128", "-128", "-129", "255", "256", "-1", "32767", "32768", "-32768", "-32769", "65535", "65536", "2147483647", "2147483648", "-2147483648", "-2147483649", "4294967295", "4294967296", "9223372036854775807", "9223372036854775808", "-9223372036854775808",
     "-9223372036854775809", "18446744073709551615", "18446744073709551616", "170141183460469231731687303715884105727", "170141183460469231731687303715884105728", "-170141183460469231731687303715884105728", "-170141183460469231731687303715884105729", "340282366920938463463374607431768211455",
-    "340282366920938463463374607431768211456", "9007199254740993.00000000000000000000000000000000000000000000000000000000000000000000000000000000000000000000000000000000000000000000000000000000000000000000000000000000000000000000000000000000000000000000000000000000000000000000000000000000000000000000000000000000000000000000000000000000000000000000000000000000000000000000000000000000000000000000000000000000000000000000000000000000000000000000000000000000000000000000000000000000000000000000000000000000000000000000000000000000000000000000000000000000000000000000000000000000000000000000000000000000000000000000000000000000000000000000000000000000000000000000000000000000000000000000000000000000000000000000000000000000000000000000000000000000000000000000000000000000000000000000000000000000000000000000000000000000000000000000000000000000000000000000000000000000000000", "1.0", "1e2", "1E2", "-0", "0.0", "-0.0", "1.5", "1e400", "-1e400", "12345678901234567890123456789012345678901", "0.1", "3.4028236e38", "1e39", "5e-324", "1e-400", "1.7976931348623157e308", "00", "01", "1.", ".5", "+1", "0x10", "1_000", "NaN", "Infinity",
+    "340282366920938463463374607431768211456", "9007199254740993.00000000000000000000000000000000000000000000000000000000000000000000000000000000000000000000000000000000000000000000000000000000000000000000000000000000000000000000000000000000000000000000000000000000000000000000000000000000000000000000000000000000000000000000000000000000000000000000000000000000000000000000000000000000000000000000000000000000000000000000000000000000000000000000000000000000000000000000000000000000000000000000000000000000000000000000000000000000000000000000000000000000000000000000000000000000000000000000000000000000000000000000000000000000000000000000000000000000000000000000000000000000000000000000000000000000000000000000000000000000000000000000000000000000000000000000000000000000000000000000000000000000000000000000000000000000000000000000000000000000000000000000000000000000000000", "1.0", "1e2", "1E2", "1.25e-2147483647", "1.25e-2147483648", "100000000000000000000e2147483647", "123.456e-2147483646", "0.00125e2147483647", "1e-2147483649", "12.5e4294967295", "0.0000001e-4294967296", "-0", "0.0", "-0.0", "1.5", "1e400", "-1e400", "12345678901234567890123456789012345678901", "0.1", "3.4028236e38", "1e39", "5e-324", "1e-400", "1.7976931348623157e308", "00", "01", "1.", ".5", "+1", "0x10", "1_000", "NaN", "Infinity",
 ];
 const OTHER_KIND: &[&str] = &["null", "true", "false", "\"x\"", "\"\"", "[]", "{}", "[1]", "{\"a\":1}", "\"\\u00e9\\n\"", "\"\\ud83d\\ude00\"", "\"\\ud800\"", "\"\\udc00x\"", "\"1\"", "\"Alpha\"", "\"Unit\"", "\"g\\\"amma\"", "[null]", "[[]]", "\"a\\u0000b\""];
 const KEY_DECOR: &[&str] = &["\" 1\"", "\"01\"", "\"+1\"", "\"1.0\"", "\"1e0\"", "\"\"", "\"-\"", "\"1 \"", "\"-0\"", "\"256\"", "\"-129\"", "\"true\"", "\"True\"", "\"a\"", "\"\\u0031\"", "\"1\"", "\"0\"", "\"-1\"", "\"18446744073709551616\"", "\"zz\"", "\"t\"", "\"c\"", "\"x-y\"", "\"Alpha\"", "\"id\"", "\"340282366920938463463374607431768211456\"", "\"\\u0061\""];
@@ -193,6 +193,16 @@ pub fn damage(src: &mut Src, text: &[u8]) -> (Vec<u8>, &'static str) {
         0 => (out, "as-printed"),
         1 | 2 if !scalars.is_empty() => {
             let sp = scalars[src.below(scalars.len())];
+            if src.chance(60) {
+                // an integer-valued exact tie of two adjacent doubles (more than 19 digits), spelt with an
+                // all-zero fraction / exponent / sticky digit: (2m+1) * 2^(e-1) for a 53-bit m
+                let m = (src.u64() & ((1u64 << 52) - 1)) | (1u64 << 52);
+                let e = 12 + src.below(40) as u32;
+                let tie: u128 = ((2 * m as u128) + 1) << (e - 1);
+                let rep = format!("{}{}{}", if src.bool() { "-" } else { "" }, tie, *src.pick(&["", ".0", ".000000", "e0", ".0e0", ".0E+0", ".00000000000000000000000001", "E-0"]));
+                out.splice(sp.start..sp.end, rep.bytes());
+                return (out, "number-near-miss");
+            }
             let rep = *src.pick(NUM_NEARMISS);
             out.splice(sp.start..sp.end, rep.bytes());
             (out, "number-near-miss")
